@@ -1454,4 +1454,161 @@ example (m2 : Ks.R 1) : ∃ res aConv, glweExternalProduct true 1 4 4 [[[1], [0]
         subst this; rfl)
   exact ⟨res, aConv, h1, h2, h3⟩
 
+/-! ## GGSW × GGLWE / GGSW × GGSW as whole matrices -/
+
+/-- what `ep_decrypts_any_radix` guarantees about one cell -/
+def EpCellSpec (N rb rs ab : Nat) (a : List Col) (g : EpGGSW) (sk : List Poly) (m2 : Ks.R N) (E : ℕ → ℕ → Ks.R N) (res : List Col) : Prop :=
+  ∃ aConv, epConvert N a ab g = some aConv ∧
+    C02L.GWF N (Ks.mkCt rb N res) ∧ (∀ c ∈ res, ∀ l ∈ c, ∀ x ∈ l, |x| ≤ 2 ^ rb - 1) ∧
+    ∃ (En : Poly) (Qr : Ks.R N), En.length = N ∧
+      normInf En ≤ (1 + C02L.snorm (min g.rank sk.length) sk) * C02.normTol (rb * rs) (g.base2k * g.size) ∧
+      (2 : Ks.R N) ^ (ab * (a.getD 0 []).length + g.base2k * g.size) * Ks.ι N (C02L.valP rb N (Core.Ops.phase sk (Ks.mkCt rb N res)))
+        = (2 : Ks.R N) ^ (rb * rs) *
+            ((2 : Ks.R N) ^ (g.base2k * g.size) * m2 * Ks.ι N (C02L.valP ab N (Core.Ops.phase sk (Ks.mkCt ab N a)))
+              + (2 : Ks.R N) ^ (ab * (a.getD 0 []).length) * epErr N sk aConv g ((2 : Ks.R N) ^ g.base2k) E)
+          + (2 : Ks.R N) ^ (ab * (a.getD 0 []).length) * Ks.ι N En
+          + (2 : Ks.R N) ^ (ab * (a.getD 0 []).length + rb * rs + g.base2k * g.size) * Qr
+
+/-- the cell loop of the matrix forms returns the list of its cells when every cell does -/
+theorem matFold_ok (big128 : Bool) (n rb rs rowsRes rowsA colsIn : Nat) (a : List (List Col)) (ab : Nat) (g : EpGGSW)
+    (c : Nat → List Col) (m : Nat)
+    (h : ∀ q, q < m → (if q / colsIn < min rowsRes rowsA then glweExternalProduct big128 n rb rs (a.getD q []) ab g
+          else .ok (zeroCols n (g.rank + 1) rs)) = .ok (c q)) :
+    (List.range m).foldl (fun (acc : Outcome (List (List Col))) q =>
+      match acc with
+      | .ok cells =>
+        if q / colsIn < min rowsRes rowsA then
+          match glweExternalProduct big128 n rb rs (a.getD q []) ab g with
+          | .ok c => .ok (cells ++ [c])
+          | .err e => .err e
+          | .panic p => .panic p
+        else .ok (cells ++ [zeroCols n (g.rank + 1) rs])
+      | o => o) (.ok []) = .ok ((List.range m).map c) := by
+  induction m with
+  | zero => rfl
+  | succ k ih =>
+    rw [List.range_succ, List.foldl_append, ih (fun q hq => h q (by omega))]
+    simp only [List.foldl_cons, List.foldl_nil, List.map_append, List.map_cons, List.map_nil]
+    have hk := h k (by omega)
+    by_cases hc : k / colsIn < min rowsRes rowsA
+    · rw [if_pos hc] at hk ⊢
+      rw [hk]
+    · rw [if_neg hc] at hk ⊢
+      injection hk with hk
+      rw [hk]
+
+example : (List.range 1).foldl (fun (acc : Outcome (List (List Col))) q =>
+      match acc with
+      | .ok cells =>
+        if q / 2 < min 1 0 then
+          match glweExternalProduct false 1 4 4 (([] : List (List Col)).getD q []) 4 staleG with
+          | .ok c => .ok (cells ++ [c])
+          | .err e => .err e
+          | .panic p => .panic p
+        else .ok (cells ++ [zeroCols 1 (staleG.rank + 1) 4])
+      | o => o) (.ok []) = .ok ((List.range 1).map (fun _ => zeroCols 1 2 4)) :=
+  matFold_ok false 1 4 4 1 0 2 [] 4 staleG (fun _ => zeroCols 1 2 4) 1 (by intro q hq; have : q = 0 := by omega
+                                                                       subst this; rfl)
+
+/-- **`mat_external_product_decrypts`** — `ggsw_external_product` / `gglwe_external_product` as WHOLE matrices (∀-cell corollary of
+`ep_decrypts_any_radix`): the call returns `rowsRes·colsIn` cells; every cell of the common rows is `glwe_external_product` of the
+operand's cell and satisfies `EpCellSpec` (decrypts to `m2·phase(cell)` + gadget error + rounding, the SAME `m2` in every cell); every cell of
+the rows beyond the operand's (`res.dnum > a.dnum`, GGSW form only — the GGLWE form panics there) is ZERO in every column, including the last.
+(A seeded change that dropped the zero fill of the last column is caught by `./check C04`: the model's zero cells disagree with all four
+back ends and the oracle reports "row beyond the operand's rows is not zero".) -/
+theorem mat_external_product_decrypts {N : Nat} (big128 gglwe : Bool) (rb rs rowsRes rowsA colsIn ab : Nat) (a : List (List Col)) (g : EpGGSW)
+    (sk : List Poly) (sa : Nat) (Hin Da Dm : Int)
+    (hrbab : rb = ab) (hrows : ¬ (gglwe = true ∧ rowsRes > rowsA))
+    (hcell : ∀ q, q < rowsRes * colsIn → q / colsIn < min rowsRes rowsA →
+      (g.n == N && g.wf && shapeOk N (g.rank + 1) sa (a.getD q [])) = true ∧ ∀ c ∈ a.getD q [], ∀ l ∈ c, ∀ x ∈ l, |x| ≤ Hin)
+    (hrb1 : 1 ≤ rb) (hrb : rb ≤ 62) (hgb1 : 1 ≤ g.base2k) (hgb : g.base2k ≤ 62)
+    (hH0 : 0 ≤ Hin) (hH : Hin + 8 ≤ 2 ^ 62)
+    (hDa : if ab = g.base2k then Hin ≤ Da else 2 ^ g.base2k - 1 ≤ Da) (hDm : 0 ≤ Dm)
+    (hadm : prodAdmissible (bitsOf big128) g.dsize (g.rank + 1) g.dnum N Da Dm 0)
+    (hgd : ∀ row ∈ g.cells, ∀ c ∈ row, ∀ l ∈ c, ∀ x ∈ l, |x| ≤ Dm)
+    (m2 : Ks.R N) (σ : ℕ → Ks.R N) (E : ℕ → ℕ → Ks.R N)
+    (hd : 1 ≤ g.dsize) (hN : 0 < N) (hn : g.n = N)
+    (hM : ∀ j q, (g.toPMat.entry j q).length = N) (hS : g.dnum * g.dsize ≤ g.size)
+    (hkey : ∀ i, i < g.rank + 1 → ∀ r, r < g.dnum →
+      Gadget.val ((2 : Ks.R N) ^ g.base2k) g.size (Ks.keyPhase N sk g.toPMat i r)
+        = m2 * σ i * ((2 : Ks.R N) ^ g.base2k) ^ (g.size - (r + 1) * g.dsize) + E i r)
+    (hcov1 : epConvSize sa ab g.base2k ≤ g.size) (hcov2 : epConvSize sa ab g.base2k ≤ g.dnum * g.dsize)
+    (hsk : g.rank ≤ sk.length) (hσ0 : σ 0 = 1) (hσ : ∀ i, i < g.rank → σ (i + 1) = Ks.ι N (sk.getD i [])) :
+    ∃ cells, matExternalProduct big128 N rb rs rowsRes rowsA colsIn a ab g gglwe = .ok cells ∧ cells.length = rowsRes * colsIn ∧
+      ∀ q, q < rowsRes * colsIn →
+        (q / colsIn < min rowsRes rowsA →
+          glweExternalProduct big128 N rb rs (a.getD q []) ab g = .ok (cells.getD q []) ∧
+          EpCellSpec N rb rs ab (a.getD q []) g sk m2 E (cells.getD q [])) ∧
+        (min rowsRes rowsA ≤ q / colsIn → cells.getD q [] = zeroCols N (g.rank + 1) rs) := by
+  have hab1 : 1 ≤ ab := by rw [← hrbab]; exact hrb1
+  have hab : ab ≤ 62 := by rw [← hrbab]; exact hrb
+  -- every computed cell
+  have hq : ∀ q, ∃ res, q < rowsRes * colsIn → q / colsIn < min rowsRes rowsA →
+      glweExternalProduct big128 N rb rs (a.getD q []) ab g = .ok res ∧ EpCellSpec N rb rs ab (a.getD q []) g sk m2 E res := by
+    intro q
+    by_cases hc : q < rowsRes * colsIn ∧ q / colsIn < min rowsRes rowsA
+    · obtain ⟨hg, hb⟩ := hcell q hc.1 hc.2
+      have hsa : ((a.getD q []).getD 0 []).length = sa := by
+        have hg' := hg
+        simp only [Bool.and_eq_true, beq_iff_eq] at hg'
+        obtain ⟨hl, hwf⟩ := wf_of_shapeOk N _ _ _ hg'.2
+        have h0 : 0 < (a.getD q []).length := by rw [hl]; omega
+        rw [List.getD_eq_getElem?_getD, List.getElem?_eq_getElem h0]; exact (hwf _ (List.getElem_mem h0)).1
+      obtain ⟨res, aConv, h1, h2, h3, h4, h5⟩ := ep_decrypts_any_radix big128 rb rs ab (a.getD q []) g sk Hin Da Dm (by rw [hsa]; exact hg)
+        hrb1 hrb hab1 hab hgb1 hgb hH0 hH hb hDa hDm hadm hgd m2 σ E hd hN hn hM hS hkey (by rw [hsa]; exact hcov1) (by rw [hsa]; exact hcov2)
+        hsk hσ0 hσ
+      exact ⟨res, fun _ _ => ⟨h1, aConv, h2, h3, h4, h5⟩⟩
+    · exact ⟨[], fun h1 h2 => absurd ⟨h1, h2⟩ hc⟩
+  choose cellOf hcellOf using hq
+  let c : Nat → List Col := fun q => if q / colsIn < min rowsRes rowsA then cellOf q else zeroCols N (g.rank + 1) rs
+  have hfold := matFold_ok big128 N rb rs rowsRes rowsA colsIn a ab g c (rowsRes * colsIn) (by
+    intro q hqlt
+    by_cases hc : q / colsIn < min rowsRes rowsA
+    · simp only [c, hc, if_true]; exact (hcellOf q hqlt hc).1
+    · simp only [c, hc, if_false])
+  refine ⟨(List.range (rowsRes * colsIn)).map c, ?_, by simp, ?_⟩
+  · unfold matExternalProduct
+    rw [if_neg (by rw [hrbab]; simp)]
+    have hr' : ¬ (gglwe && decide (rowsRes > rowsA)) = true := by
+      intro h
+      simp only [Bool.and_eq_true, decide_eq_true_eq] at h
+      exact hrows h
+    rw [if_neg hr']
+    exact hfold
+  · intro q hqlt
+    have hget : ((List.range (rowsRes * colsIn)).map c).getD q [] = c q := getD_range_map _ q c hqlt
+    rw [hget]
+    constructor
+    · intro hc
+      simp only [c, hc, if_true]
+      exact hcellOf q hqlt hc
+    · intro hc
+      have : ¬ q / colsIn < min rowsRes rowsA := by omega
+      simp only [c, this, if_false]
+
+/-- GGSW × GGSW with a result of MORE rows than the operand (`rowsRes = 2 > rowsA = 1`): the extra row is zero in every column -/
+example (m2 : Ks.R 1) : ∃ cells, matExternalProduct true 1 4 4 2 1 2 [[[[1], [2], [3]], [[0], [1], [0]]], [[[1], [2], [3]], [[0], [1], [0]]]] 4 staleG false = .ok cells ∧ cells.length = 4 ∧
+    cells.getD 2 [] = zeroCols 1 2 4 ∧ cells.getD 3 [] = zeroCols 1 2 4 := by
+  obtain ⟨cells, h1, h2, h3⟩ := mat_external_product_decrypts (N := 1) true false 4 4 2 1 2 4 [[[[1], [2], [3]], [[0], [1], [0]]], [[[1], [2], [3]], [[0], [1], [0]]]] staleG [[1]] 3 3 3 1
+    rfl (by decide)
+    (by
+      intro q hq hrow
+      have hq2 : q < 2 := by
+        have : q / 2 < 1 := by simpa using hrow
+        omega
+      have : q = 0 ∨ q = 1 := by omega
+      rcases this with rfl | rfl <;> exact ⟨by decide, by decide⟩)
+    (by decide) (by decide) (by decide) (by decide) (by decide) (by decide) (by decide) (by decide) (by decide) (by decide)
+    m2 (fun i => if i = 0 then 1 else Ks.ι 1 [1])
+    (fun i r => Gadget.val ((2 : Ks.R 1) ^ staleG.base2k) staleG.size (Ks.keyPhase 1 [[1]] staleG.toPMat i r)
+      - m2 * (if i = 0 then 1 else Ks.ι 1 [1]) * ((2 : Ks.R 1) ^ staleG.base2k) ^ (staleG.size - (r + 1) * staleG.dsize))
+    (by decide) (by decide) rfl (Ks.entry_length staleG.toPMat 1 rfl (by decide)) (by decide)
+    (by intro i _ r _; exact (add_sub_cancel _ _).symm)
+    (by decide) (by decide) (by decide) rfl
+    (by intro i hi; have : i = 0 := by
+          have : i < 1 := hi
+          omega
+        subst this; rfl)
+  exact ⟨cells, h1, h2, (h3 2 (by decide)).2 (by decide), (h3 3 (by decide)).2 (by decide)⟩
+
 end C04
